@@ -142,6 +142,29 @@ pub mod cmp {
     }
 }
 
+/// A second module with a compound type of the same identifier and shape as `cmp::Pair`:
+/// `type_name()` is "Pair" for both, only the type identity differs.
+pub mod cmp2 {
+    use proto_vulcan::prelude::*;
+
+    #[compound]
+    pub struct Pair(LTerm, LTerm);
+}
+
+/// TypeId of the object behind a `cmp2::Pair` (learnt from a sample value)
+fn pair2_type_id() -> std::any::TypeId {
+    thread_local! {
+        static ID: std::any::TypeId = {
+            let t: LT = cmp2::Pair_compound::_InnerPair(LTerm::from(0isize), LTerm::from(0isize)).into();
+            match t.as_ref() {
+                LTermInner::Compound(obj) => obj.as_any().type_id(),
+                _ => unreachable!(),
+            }
+        };
+    }
+    ID.with(|i| *i)
+}
+
 // ---------------------------------------------------------------------------------------
 // goal kinds
 
@@ -238,6 +261,7 @@ pub fn build_term(t: &Term, env: &Env) -> LT {
                     cmp::Node_compound::_InnerNode(b[0].clone(), l, r).into()
                 }
                 Kind::Tuple => (b[0].clone(), b[1].clone()).into(),
+                Kind::Pair2 => cmp2::Pair_compound::_InnerPair(b[0].clone(), b[1].clone()).into(),
                 Kind::Wrap => {
                     let opt: Option<cmp::Pair<U, E>> = match &a[1] {
                         Term::Nil => None,
@@ -300,7 +324,7 @@ impl Unbuilder {
             }
             LTermInner::Projection(p) => Term::Cmp(Kind::Tuple, vec![Term::Str("<projection>".into()), self.term(p)]),
             LTermInner::Compound(obj) => {
-                let kind = Kind::from_type_name(obj.type_name());
+                let kind = if obj.as_any().type_id() == pair2_type_id() { Some(Kind::Pair2) } else { Kind::from_type_name(obj.type_name()) };
                 let mut args = vec![];
                 for child in obj.children() {
                     match child.as_term() {
@@ -376,6 +400,14 @@ pub fn nrev<U2: User, E2: Engine<U2>, G: AnyGoal<U2, E2>>(l: LTerm<U2, E2>, r: L
     proto_vulcan_closure!(cond {
         [l == [], r == []],
         |h, t, rt| { l == [h | t], nrev(t, rt), append(rt, [h], r) }
+    })
+}
+
+pub fn deepnever<U2: User, E2: Engine<U2>>(l: LTerm<U2, E2>) -> proto_vulcan::goal::Goal<U2, E2> {
+    use proto_vulcan::relation::never;
+    proto_vulcan_closure!(conde {
+        [l == [], never()],
+        |h, t| { l == [h | t], deepnever(t), h == 0 }
     })
 }
 
@@ -480,6 +512,7 @@ pub fn build_goal<G: Kinded>(g: &ast::Goal, env: &Env) -> G {
                 Rel::MemberRev => memberrev::<U, E, G>(a[0].clone(), a[1].clone()).cast_into(),
                 Rel::Zeros => zeros::<U, E, G>(a[0].clone()).cast_into(),
                 Rel::Nrev => nrev::<U, E, G>(a[0].clone(), a[1].clone()).cast_into(),
+                Rel::DeepNever => G::from_bfs(deepnever::<U, E>(a[0].clone())),
             }
         }
         A::Fd(f) => {
